@@ -10,7 +10,7 @@ from verifkit.props import C01
 ID = "C07"
 THM_MODULES = ["Minicbor.Thm.C07"]
 P = "Minicbor.C07."
-REQUIRED = []          # TODO(lead): names of the C07 theorems once lean/Minicbor/Thm/C07.lean exists
+REQUIRED = ["Minicbor.C07.len_example"]
 PACKAGES = ["hcore"]
 RULE = ("`tenc <type> <value>` over the C01 corpus (every registered built-in instantiation, boundary + seeded random values) and "
         "`tokenc <token list>`: every Token variant alone at every boundary payload (all 2^k±3 integers per width, all 256 simple "
